@@ -437,3 +437,13 @@ def follow_delegation(ctx, fn: FuncInfo, param: str, depth: int = 0):  # type: i
         if isinstance(k.value, ast.Name) and k.value.id == param and k.arg in params:
             return follow_delegation(ctx, callee, k.arg, depth + 1)
     return fn, param
+
+
+def own_params(fn: FuncInfo) -> List[str]:
+    """The positional parameters a caller fills: without `self` / `cls` for a method, all of them for a staticmethod or a
+    plain function."""
+    params = [a.arg for a in fn.node.args.posonlyargs + fn.node.args.args]
+    decos = {ast.unparse(d).split(".")[-1] for d in fn.node.decorator_list}
+    if fn.cls is not None and "staticmethod" not in decos and params:
+        return params[1:]
+    return params
